@@ -96,6 +96,8 @@ fn real_main() {
     let mode = args.get(1).map(|s| s.as_str()).unwrap_or("");
     match mode {
         "gen" => {
+            // generators call the real crate for reference data; if it panics, say where (the check reports it)
+            std::panic::set_hook(Box::new(|info| eprintln!("panic while generating the stream: {}", info)));
             let prop = args[2].as_str();
             let thorough = args[3] == "thorough";
             let seed: u64 = args[4].parse().expect("seed");
